@@ -70,6 +70,7 @@ Proof.
   - now apply sim_x86_64.
   - now rewrite Hfmt.
   - now rewrite Hfmt.
+  - rewrite Hfmt. destruct Hform as [-> | ->]; cbn; lia.
   - destruct Hform as [-> | ->]; wf_by_compute.
 Qed.
 
@@ -123,6 +124,7 @@ Proof.
   - now apply sim_ia32_pae.
   - now rewrite Hfmt.
   - now rewrite Hfmt.
+  - rewrite Hfmt, Hform. cbn. lia.
   - rewrite Hform; wf_by_compute.
 Qed.
 
@@ -182,5 +184,6 @@ Proof.
   - now apply sim_ia32.
   - now rewrite Hfmt.
   - now rewrite Hfmt.
+  - rewrite Hfmt, Hform. cbn. lia.
   - rewrite Hform; wf_by_compute.
 Qed.
